@@ -116,6 +116,12 @@ def retransmit_templates(x, n=0, y=None):
     ]
 
 
+def mid_base(rng):
+    """first message ID of the scripted peer: mostly mid-range, sometimes just below a value at which an ID-keyed table could
+    change its behaviour (0x8000 sign bit, 0xD800-0xDFFF / 0xFFFD if IDs are ever mapped to runes, 10^4 digit count, 0)"""
+    return rng.choice([40000, 42000, 43000, 32760, 55285, 57335, 9990, 1, 65200])
+
+
 def gen_reuse(rng):
     """Sequential exchanges over a small pool of tokens on the datagram transport; every separate confirmable response may be
     sent again (same message ID) at any later point — while the token is free, or taken by a later request."""
@@ -123,7 +129,7 @@ def gen_reuse(rng):
     pool = [rand_token(rng) for _ in range(rng.randint(1, 2))]
     ops = []
     sent = []          # (tok, mid, tag) of confirmable responses already sent
-    mid = 42000
+    mid = mid_base(rng)
     caller = 0
 
     def copies():
@@ -167,7 +173,7 @@ def gen_release_rounds(rng, rounds=None):
     ops = []
     out = []            # (caller, tok, typ) outstanding
     k = 0
-    mid = 43000
+    mid = mid_base(rng)
 
     def start():
         nonlocal k
@@ -248,7 +254,7 @@ def gen_scenario(rng, racy=False, collide=False, siblings=False):
     ops = []
     started = []          # (caller, tok, typ)
     next_caller = 1
-    next_mid = 40000
+    next_mid = mid_base(rng)
     emitted = []          # (kind, tok, mid, tag) of separate responses, for duplicates
     tagn = [0]
 
@@ -331,7 +337,7 @@ def gen_racy(rng):
     ops = []
     callers = []        # (id, tok, typ) started in earlier bursts
     nid = 1
-    mid = 40000
+    mid = mid_base(rng)
     tagn = 0
     emitted = []
     for _ in range(rng.randint(2, 5)):
